@@ -1,3 +1,5 @@
+//go:build !verif_nomanip
+
 package main
 
 // "manip": the text-level functions of internal/manip and internal/util called directly through
